@@ -70,7 +70,7 @@ def build(targets, flavour="asan"):
         r = subprocess.run(["ninja", "-C", bdir] + list(targets), stdout=subprocess.PIPE,
                            stderr=subprocess.STDOUT, text=True)
         if r.returncode != 0:
-            raise InternalError("build failed:\n" + r.stdout[-6000:])
+            raise InternalError("build failed:\n" + "\n".join([l for l in r.stdout.splitlines() if "error" in l or "FAILED" in l][:12])[-3000:])
         log("[build] %s %s ok in %.1fs" % (flavour, " ".join(targets), time.time() - t0))
     finally:
         fcntl.flock(lock, fcntl.LOCK_UN)
